@@ -5,7 +5,7 @@
 //   REV <id> r1 r2 ...                    reverse table
 //   DEPS <id> d1 d2 ...                   instanceDependencies (sorted set)
 //   LOAD <id> <serialisation by STEPwrite>           per load request, in the given order
-//   INV <id> <attr-name> i1 i2 ...        inverse attributes of the loaded instance
+//   INV <id> <Entity>.<attr-name> i1 i2 ...   inverse attributes of the loaded instance (Entity: where it is declared)
 #define protected public
 #define private public
 #include "cllazyfile/lazyInstMgr.h"
@@ -95,27 +95,35 @@ int main( int argc, char ** argv ) {
             std::ostringstream o;
             inst->STEPwrite( o );
             printf( "LOAD %lu %s\n", ( unsigned long )id, oneLine( o.str() ).c_str() );
-            // inverse attributes, own and inherited
-            const SDAI_Application_instance::iAMap_t & m = inst->getInvAttrs();
-            for( SDAI_Application_instance::iAMap_t::const_iterator it = m.begin(); it != m.end(); ++it ) {
-                const Inverse_attribute * ia = it->first;
-                std::ostringstream io;
-                io << "INV " << id << " " << ia->Name();
-                if( ia->IsAggrType() ) {
-                    EntityAggregate * ea = it->second.a;
-                    if( ea ) {
-                        EntityNode * en = ( EntityNode * )ea->GetHead();
-                        while( en ) {
-                            io << " " << ( en->node ? en->node->StepFileId() : -1 );
-                            en = ( EntityNode * )en->NextNode();
+            // inverse attributes, own and inherited; of every part when the instance is in external mapping
+            // (INV: as held by the instance, or by the part whose entity declares the attribute; INVI: the copy another part inherits)
+            for( SDAI_Application_instance * part = inst; part; part = part->IsComplex() ? ( ( STEPcomplex * )part )->sc : 0 ) {
+                const SDAI_Application_instance::iAMap_t & m = part->getInvAttrs();
+                for( SDAI_Application_instance::iAMap_t::const_iterator it = m.begin(); it != m.end(); ++it ) {
+                    const Inverse_attribute * ia = it->first;
+                    std::ostringstream io;
+                    // the declaring entity is part of the name: two supertypes may each declare an inverse attribute called the same
+                    if( inst->IsComplex() && &( ia->Owner() ) != part->eDesc ) {
+                        io << "INVI " << id << " " << part->eDesc->Name() << " " << ia->Owner().Name() << "." << ia->Name();
+                    } else {
+                        io << "INV " << id << " " << ia->Owner().Name() << "." << ia->Name();
+                    }
+                    if( ia->IsAggrType() ) {
+                        EntityAggregate * ea = it->second.a;
+                        if( ea ) {
+                            EntityNode * en = ( EntityNode * )ea->GetHead();
+                            while( en ) {
+                                io << " " << ( en->node ? en->node->StepFileId() : -1 );
+                                en = ( EntityNode * )en->NextNode();
+                            }
+                        }
+                    } else {
+                        if( it->second.i ) {
+                            io << " " << it->second.i->StepFileId();
                         }
                     }
-                } else {
-                    if( it->second.i ) {
-                        io << " " << it->second.i->StepFileId();
-                    }
+                    puts( io.str().c_str() );
                 }
-                puts( io.str().c_str() );
             }
             fflush( stdout );
         }
